@@ -790,12 +790,18 @@ def run(chk: core.Check):
     corr_prepare_path(chk, rng, 300 * scale)
     corr_prepare_url(chk, rng, 300 * scale)
     corr_headers(chk, rng, 200 * scale)
+    corr_requests_params(chk, rng, 250 * scale, [c for c in corpus if c.get("stage") == "requests_params"])
+    corr_coverage_template(chk, rng, 100 * scale)
     rec = Recorder()
     try:
         n = (150 if quick else 2500) * (10 if chk.broken else 1)
         cases = [c["case"] for c in corpus if c.get("stage") == "oracle"] + [gen_e2e(rng) for _ in range(n)]
         chk.stages["oracle_loopback"] = run_oracle(chk, rec, cases)
         chk.stages["oracle_wsgi"] = oracle_wsgi(chk, rng, rec, 100 if quick else 1000)
+        chk.stages["oracle_multi_query"] = oracle_multi_query(
+            chk, rng, rec, (40 if quick else 500) * (5 if chk.broken else 1), [c["query"] for c in corpus if c.get("stage") == "multi_query"]
+        )
+        chk.stages["oracle_coverage_phase"] = oracle_coverage_phase(chk, rng, 12 if quick else 120)
         for f in chk.findings:
             chk.known(f, witness_fails(f["witness"], rec))
     finally:
@@ -1112,6 +1118,293 @@ def wsgi_region(parts):
 
 
 # ----------------------------------------------------------------------------------------
+# serialize_case: the query that is handed to requests
+# ----------------------------------------------------------------------------------------
+Q_NAMES = ["o", "page", "flag", "ids", "s", "f", "n", "t"]
+Q_MIX = [{}, {}, {}, 0, False, 0.0, "", [], None, 1, -3, "x", "a b", True, ["a"], [0], ["", "b"], {"k": "v"}, {"k": 0}]
+
+
+def canon_f(v):
+    """canon() that also keeps floats apart."""
+    if isinstance(v, float):
+        return ["float", repr(v)]
+    if isinstance(v, (list, tuple)):
+        return ["list", [canon_f(x) for x in v]]
+    if isinstance(v, dict):
+        return ["dict", [[k, canon_f(x)] for k, x in v.items()]]
+    return canon(v)
+
+
+def has_float(v):
+    if isinstance(v, float):
+        return True
+    if isinstance(v, list):
+        return any(has_float(x) for x in v)
+    if isinstance(v, dict):
+        return any(has_float(x) for x in v.values())
+    return False
+
+
+def rand_mixed_query(rng, force_empty_obj=None):
+    k = rng.choice([1, 2, 2, 3, 4, 5])
+    names = rng.sample(Q_NAMES, k)
+    q = {nm: copy.deepcopy(rng.choice(Q_MIX)) for nm in names}
+    if force_empty_obj if force_empty_obj is not None else rng.random() < 0.5:
+        q[rng.choice(names)] = {}
+    return q
+
+
+def corr_requests_params(chk, rng, n, corpus=()):
+    """REQUESTS_TRANSPORT.serialize_case(case)["params"] vs Model_C06.requests_params, and the pointwise rule itself."""
+    from schemathesis.transport.requests import REQUESTS_TRANSPORT
+
+    op = build_op([{"name": nm, "in": "query", "schema": {}} for nm in Q_NAMES], "http://127.0.0.1:1/api")
+    queries = [c["query"] for c in corpus] + [rand_mixed_query(rng) for _ in range(n)] + [None]
+    modelled = [q for q in queries if q is not None and not has_float(q)]
+    model = dict()
+    for q, m in zip(modelled, core.coq_eval(IMPORTS, [f"requests_params {c_item(q)}" for q in modelled])):
+        model[json.dumps(canon_f(q))] = canon_item(p_item(m))
+    mixed = 0
+    for q in queries:
+        case = op.Case(path_parameters={"id": "x"}, query=copy.deepcopy(q))
+        params = REQUESTS_TRANSPORT.serialize_case(case, base_url="http://127.0.0.1:1/api")["params"]
+        inp = {"stage": "requests_params", "query": q}
+        nontrivial = q is not None and any(v == {} for v in q.values()) and any((not v) and v != {} for v in q.values())
+        mixed += nontrivial
+        chk.seen({"requests_params": canon_f(q)}, nontrivial)
+        if q is None:
+            if params is not None:
+                chk.disagree("serialize_case params for a case without query", inp, canon_f(params), None)
+            continue
+        impl = [[k, canon_f(v)] for k, v in params.items()]
+        # the rule, entry by entry (C06_empty_object_rule_is_pointwise), directly on the implementation: floats included
+        expected = [[k, canon_f("" if (isinstance(v, dict) and not v) else v)] for k, v in q.items()]
+        if impl != expected:
+            chk.fail("serialize_case changes a query value that is not an empty object (or reorders the query)", inp, {"params": impl, "expected": expected})
+        key = json.dumps(canon_f(q))
+        if key in model and [[k, canon_f(v)] for k, v in params.items()] != [[k, c] for k, c in model[key]]:
+            chk.disagree("RequestsTransport.serialize_case params vs Model_C06.requests_params", inp, impl, model[key])
+        if case.query != q:
+            chk.fail("serialize_case mutates case.query", inp, canon_f(case.query))
+    chk.stages["correspondence_requests_params"] = {"queries": len(queries), "with_empty_object_and_falsy_neighbour": mixed, "float_free_compared_with_model": len(modelled)}
+
+
+# ----------------------------------------------------------------------------------------
+# coverage phase: Template._serialize
+# ----------------------------------------------------------------------------------------
+def corr_coverage_template(chk, rng, n):
+    from schemathesis.generation.hypothesis.builder import Template
+    from schemathesis.specs.openapi.serialization import serialize_openapi3_parameters
+
+    cases = []
+    for _ in range(n):
+        defs = [rand_def3(rng, nm, "path") for nm in rng.sample(["id", "k", "z"], rng.choice([0, 1, 2]))]
+        item = {}
+        for d in defs:
+            item[d["name"]] = rand_value(rng, shape_for(d) if rng.random() < 0.85 else None)
+        if rng.random() < 0.6 or not item:
+            item["p"] = rand_value(rng, "prim")
+        cases.append((defs, item))
+    exprs = []
+    for defs, item in cases:
+        ds = clist([c_def3(d) for d in defs], "definition")
+        exprs.append("[" + "; ".join(f"template_nth {ds} {i}%nat {c_item(item)}" for i in range(3)) + "]")
+    skipped = 0
+    for (defs, item), ms in zip(cases, core.coq_eval(IMPORTS, exprs)):
+        if any(m is None for m in ms):
+            skipped += 1
+            continue
+        serializer = serialize_openapi3_parameters(copy.deepcopy(defs))
+        tmpl = Template(serializers={} if serializer is None else {"path_parameters": serializer})
+        tmpl._template["path_parameters"] = copy.deepcopy(item)
+        try:
+            impl = [canon_item(tmpl.unmodified().kwargs["path_parameters"]) for _ in range(3)]
+        except Exception as exc:  # noqa: BLE001
+            impl = f"raises {type(exc).__name__}"
+        mod = [canon_item(p_item(m[1])) for m in ms]
+        inp = {"definitions": defs, "path_parameters": canon_item(item)}
+        chk.seen({"coverage_template": inp}, mod[0] != mod[1])
+        if impl != mod:
+            chk.disagree("Template._serialize (three successive cases) vs Model_C06.template_nth", inp, impl, mod)
+    chk.stages["correspondence_coverage_template"] = {"cases": len(cases), "unmodelled_or_raising": skipped}
+
+
+UNRESERVED = set("ABCDEFGHIJKLMNOPQRSTUVWXYZabcdefghijklmnopqrstuvwxyz0123456789_.-~")
+
+
+def py_quote_stable(s: str) -> bool:
+    return all(c in UNRESERVED for c in s) and s not in (".", "..")
+
+
+def coverage_path_values(value: str, extra_query=True):
+    """path values of the positive coverage cases of an operation whose path parameter can only be `value`."""
+    import schemathesis
+    from schemathesis.generation import GenerationMode
+    from schemathesis.generation.hypothesis.builder import _iter_coverage_cases
+
+    params = [{"name": "id", "in": "path", "required": True, "schema": {"type": "string", "enum": [value]}}]
+    if extra_query:
+        params.append({"name": "q", "in": "query", "schema": {"type": "integer", "minimum": 1, "maximum": 5}})
+        params.append({"name": "r", "in": "query", "schema": {"type": "string", "enum": ["x", "y"]}})
+    raw = {"openapi": "3.0.2", "info": {"title": "t", "version": "1"}, "paths": {"/items/{id}": {"get": {"parameters": params, "responses": {"200": {"description": "ok"}}}}}}
+    op = schemathesis.openapi.from_dict(raw)["/items/{id}"]["GET"]
+    return [case.path_parameters["id"] for case in _iter_coverage_cases(op, [GenerationMode.POSITIVE]) if case.path_parameters and "id" in case.path_parameters]
+
+
+def oracle_coverage_phase(chk, rng, n):
+    """Every positive coverage case must carry the (only possible) path value: decode what each case holds."""
+    runs = cases = bad = 0
+    for _ in range(n):
+        value = rng.choice(["abc", "a.b-1~", "v1"]) if rng.random() < 0.3 else "".join(ch for ch in rand_text(rng, 6) if ch not in "/{}" and not 0xD800 <= ord(ch) <= 0xDFFF)
+        if value in ("", ".", ".."):
+            continue
+        try:
+            got = coverage_path_values(value)
+        except Exception as exc:  # noqa: BLE001
+            chk.count(f"coverage:skipped:{type(exc).__name__}")
+            continue
+        runs += 1
+        for i, text in enumerate(got):
+            cases += 1
+            try:
+                ok = py_pct_decode(text, True) == value
+            except Undecodable:
+                ok = False
+            chk.seen({"coverage_case": [value, i]}, not py_quote_stable(value))
+            if not ok:
+                bad += 1
+                chk.fail("coverage case does not carry the path value of its operation", {"value": value, "case_index": i},
+                         {"path_value_in_case": text, "all_cases": got[:4]}, region=None if (py_quote_stable(value) or i == 0) else "coverage_requote")
+    return {"operations": runs, "coverage_cases": cases, "cases_not_carrying_the_value": bad}
+
+
+# ----------------------------------------------------------------------------------------
+# multi-parameter queries on the wire: every parameter independent of its neighbours (requests, WSGI, ASGI)
+# ----------------------------------------------------------------------------------------
+def _pairs(qs: str):
+    out = []
+    if qs:
+        for part in qs.split("&"):
+            k, _, v = part.partition("=")
+            out.append((py_pct_decode(k, True), py_pct_decode(v, True)))
+    return out
+
+
+class WireSink:
+    """requests->loopback, WSGI and ASGI receivers that all report the decoded query pairs."""
+
+    def __init__(self, rec):
+        self.rec = rec
+        self.seen = []
+
+        def wsgi_app(environ, start_response):
+            self.seen.append(environ.get("QUERY_STRING", ""))
+            start_response("200 OK", [("Content-Type", "application/json")])
+            return [b"{}"]
+
+        async def asgi_app(scope, receive, send):
+            if scope["type"] == "lifespan":
+                while True:
+                    message = await receive()
+                    if message["type"] == "lifespan.startup":
+                        await send({"type": "lifespan.startup.complete"})
+                    elif message["type"] == "lifespan.shutdown":
+                        await send({"type": "lifespan.shutdown.complete"})
+                        return
+            self.seen.append(scope["query_string"].decode("latin-1"))
+            await send({"type": "http.response.start", "status": 200, "headers": [(b"content-type", b"application/json")]})
+            await send({"type": "http.response.body", "body": b"{}"})
+
+        self.apps = {"requests": None, "wsgi": wsgi_app, "asgi": asgi_app}
+
+    def send(self, transport, defs, query, chain):
+        op = build_op(defs, (self.rec.url if transport == "requests" else "http://localhost") + "/api", app=self.apps[transport])
+        q = real_chain(op, "query", copy.deepcopy(query)) if chain else copy.deepcopy(query)
+        case = op.Case(path_parameters={"id": "x"}, query=q)
+        if transport == "requests":
+            self.rec.take()
+            case.call()
+            got = self.rec.take()
+            assert len(got) == 1, len(got)
+            return _pairs(got[0]["target"].partition("?")[2])
+        del self.seen[:]
+        case.call()
+        assert len(self.seen) == 1, len(self.seen)
+        return _pairs(self.seen[0])
+
+
+def belongs(key, name):
+    return key == name or key.startswith(name + "[")
+
+
+MQ_TYPES = {"o": "object", "page": "integer", "flag": "boolean", "ids": "array", "s": "string", "f": "number", "n": "integer", "t": "array"}
+
+
+def multi_query_defs(rng, names):
+    defs = []
+    for nm in names:
+        d = {"name": nm, "in": "query", "schema": {"type": MQ_TYPES[nm]}}
+        if MQ_TYPES[nm] == "array" and rng.random() < 0.5:
+            d["explode"] = False
+            d["style"] = rng.choice(["form", "pipeDelimited", "spaceDelimited"])
+        defs.append(d)
+    return defs
+
+
+def oracle_multi_query(chk, rng, rec, n, corpus=()):
+    sink = WireSink(rec)
+    queries = [(q, False) for q in corpus] + [(q, True) for q in corpus]
+    queries += [(rand_mixed_query(rng, force_empty_obj=rng.random() < 0.6), rng.random() < 0.5) for _ in range(n)]
+    stats = {"requests": 0, "wsgi": 0, "asgi": 0, "dependent_parameters": 0, "scalar_values_checked": 0}
+    for idx, (query, chain) in enumerate(queries):
+        if len(query) < 2:
+            continue
+        defs = multi_query_defs(rng, list(query))
+        for transport in ("requests", "wsgi", "asgi"):
+            if transport == "asgi" and idx % 3 and idx >= 2 * len(corpus):
+                continue  # the ASGI test client is slow to start: a third of the cases
+            inp = {"stage": "multi_query", "transport": transport, "through_generation_chain": chain, "query": canon_f(query), "definitions": defs}
+            try:
+                multi = sink.send(transport, defs, query, chain)
+            except Filtered:
+                break
+            except Exception as exc:  # noqa: BLE001
+                chk.count(f"multi_query:{transport}:not-sent:{type(exc).__name__}")
+                continue
+            stats[transport] += 1
+            chk.seen({"multi_query": inp}, any(isinstance(v, dict) and not v for v in query.values()))
+            for name, value in query.items():
+                try:
+                    single = sink.send(transport, [d for d in defs if d["name"] == name], {name: value}, chain)
+                except Exception as exc:  # noqa: BLE001
+                    chk.count(f"multi_query:{transport}:single-not-sent:{type(exc).__name__}")
+                    continue
+                mine = [kv for kv in multi if belongs(kv[0], name)]
+                if mine != single:
+                    stats["dependent_parameters"] += 1
+                    chk.fail(f"query parameter {name!r} is sent differently when it has neighbours ({transport} transport)", inp,
+                             {"parameter": name, "value": canon_f(value), "alone": single, "with_neighbours": mine, "all": multi})
+                # (a scalar given to a parameter declared as array/object is a wrong-type value: `delimited` & co. test its
+                #  truth value and blank 0 / "" - outside shape_ok, see notes; independence is still required above)
+                if isinstance(value, (int, float, str)) and not isinstance(value, bool) and MQ_TYPES[name] not in ("array", "object"):
+                    stats["scalar_values_checked"] += 1
+                    got = [v for _, v in mine]
+                    if got != [str(value)] and not (isinstance(value, float) and len(got) == 1 and _same_float(got[0], value)):
+                        chk.fail(f"scalar query parameter {name!r} not recovered ({transport} transport)", inp, {"value": canon_f(value), "decoded": got})
+            stray = [kv for kv in multi if not any(belongs(kv[0], nm) for nm in query)]
+            if stray:
+                chk.fail(f"query keys that belong to no parameter ({transport} transport)", inp, stray)
+    return stats
+
+
+def _same_float(text, value):
+    try:
+        return float(text) == value
+    except ValueError:
+        return False
+
+
+# ----------------------------------------------------------------------------------------
 # listed findings: canonical witnesses replayed on the implementation
 # ----------------------------------------------------------------------------------------
 def witness_fails(w, rec=None) -> bool:
@@ -1125,6 +1418,9 @@ def witness_fails(w, rec=None) -> bool:
             infos = {loc: parse_info(t) for loc, t in zip(c["defs"], core.coq_eval(IMPORTS, exprs))}
             status, problems = oracle_once(rec, c["defs"], c["values"], c.get("call_headers"), c.get("body"), c.get("media_type"), infos)
             return status == "sent" and any(region == w["region"] for _, region, _ in problems)
+        if kind == "coverage_requote":
+            got = coverage_path_values(w["value"])
+            return len(got) >= 2 and py_pct_decode(got[0], True) == w["value"] and py_pct_decode(got[1], True) != w["value"]
         if kind == "label_falsy":
             from schemathesis.specs.openapi.serialization import label_primitive
 
